@@ -117,6 +117,13 @@ func init() {
 	reg("(*"+fc+".Cache).Set", zeroRes)
 	reg("(*"+fc+".Cache).Del", zeroRes)
 	reg("(*"+fc+".Cache).Reset", zeroRes)
+	// the sqlite/mysql group index and log tables: not part of any claimed property
+	for _, n := range []string{"InitMySql", "InsertGroup", "DeleteGroup", "InsertLogs", "DeleteLogs"} {
+		reg(repoMod+"middleware/mysql."+n, func(in *Interp, fr *frame, a []Value, site *ssa.CallCommon) Value {
+			return Iface{}
+		})
+	}
+	reg(repoMod+"middleware/mysql.CountGroups", func(in *Interp, fr *frame, a []Value, _ *ssa.CallCommon) Value { return in.mkU64(0) })
 	lg := func(in *Interp, fr *frame, a []Value, _ *ssa.CallCommon) Value { return mkStubIface("logger") }
 	reg(repoMod+"middleware/log.GetLogger", lg)
 	reg(repoMod+"middleware/log.GetLoggerByIndex", lg)
